@@ -26,7 +26,8 @@ struct Seen {
     display: String,
     eq_expected: bool,
     eq_raw: Option<bool>,
-    /// == with strings that merely start with / are a prefix of / case-differ from the canonical text (must all be false)
+    /// == with strings that merely start with / are a prefix of / case-differ from the canonical text, and with proper
+    /// prefixes / suffixes that alias the subtag's own `as_str()` storage (must all be false)
     eq_other: bool,
     into_str: Option<String>,
     is_empty: Option<bool>,
@@ -50,7 +51,7 @@ fn observe(kind: SubtagKind, b: &[u8], expected: &str) -> Result<Option<Seen>, S
             display: t.to_string(),
             eq_expected: t == expected,
             eq_raw: raw.map(|r| t == r),
-            eq_other: others.iter().any(|o| t == o.as_str()),
+            eq_other: others.iter().any(|o| t == o.as_str()) || { let own = t.as_str(); (0..own.len()).any(|k| t == &own[..k] || (k > 0 && t == &own[k..])) },
             into_str: None,
             is_empty: Some(t.is_empty()),
         }),
@@ -59,7 +60,7 @@ fn observe(kind: SubtagKind, b: &[u8], expected: &str) -> Result<Option<Seen>, S
             display: t.to_string(),
             eq_expected: t == expected,
             eq_raw: raw.map(|r| t == r),
-            eq_other: others.iter().any(|o| t == o.as_str()),
+            eq_other: others.iter().any(|o| t == o.as_str()) || { let own = t.as_str(); (0..own.len()).any(|k| t == &own[..k] || (k > 0 && t == &own[k..])) },
             into_str: Some(<&str>::from(&t).to_string()),
             is_empty: None,
         }),
@@ -68,7 +69,7 @@ fn observe(kind: SubtagKind, b: &[u8], expected: &str) -> Result<Option<Seen>, S
             display: t.to_string(),
             eq_expected: t == expected,
             eq_raw: raw.map(|r| t == r),
-            eq_other: others.iter().any(|o| t == o.as_str()),
+            eq_other: others.iter().any(|o| t == o.as_str()) || { let own = t.as_str(); (0..own.len()).any(|k| t == &own[..k] || (k > 0 && t == &own[k..])) },
             into_str: Some(<&str>::from(&t).to_string()),
             is_empty: None,
         }),
@@ -77,7 +78,7 @@ fn observe(kind: SubtagKind, b: &[u8], expected: &str) -> Result<Option<Seen>, S
             display: t.to_string(),
             eq_expected: t == expected && t == *expected,
             eq_raw: raw.map(|r| t == r && t == *r),
-            eq_other: others.iter().any(|o| t == o.as_str() || t == *o.as_str()),
+            eq_other: others.iter().any(|o| t == o.as_str() || t == *o.as_str()) || { let own = t.as_str(); (0..own.len()).any(|k| t == &own[..k] || t == own[..k] || (k > 0 && (t == &own[k..] || t == own[k..]))) },
             into_str: None,
             is_empty: None,
         }),
@@ -147,6 +148,29 @@ pub fn c15_check_kind(kind: SubtagKind, b: &[u8]) -> Vec<Fail> {
                     out.push(fail(format!("{}:from_str-differs", kn), format!("from_bytes -> {:?}, from_str -> {:?}", seen.as_ref().map(|s| &s.display), x)));
                 }
             }
+        }
+    }
+    // the same comparison on the values themselves (the text alone cannot tell the empty language from a language
+    // that merely prints as "und")
+    {
+        let same = guard(|| {
+            let st = std::str::from_utf8(b).ok();
+            match kind {
+                SubtagKind::Language => {
+                    let a = Language::from_bytes(b).ok();
+                    let c = Language::try_from(Some(b)).ok();
+                    let consistent = a.map_or(true, |x| x.is_empty() == (x == Language::default()));
+                    a == c && consistent && st.map_or(true, |s| s.parse::<Language>().ok() == a && Language::try_from(Some(s)).ok() == a)
+                }
+                SubtagKind::Script => st.map_or(true, |s| s.parse::<Script>().ok() == Script::from_bytes(b).ok()),
+                SubtagKind::Region => st.map_or(true, |s| s.parse::<Region>().ok() == Region::from_bytes(b).ok()),
+                SubtagKind::Variant => st.map_or(true, |s| s.parse::<Variant>().ok() == Variant::from_bytes(b).ok()),
+            }
+        });
+        match same {
+            Err(p) => out.push(fail(format!("{}:panic", kn), p)),
+            Ok(true) => {}
+            Ok(false) => out.push(fail(format!("{}:constructors-differ", kn), format!("from_bytes, FromStr and TryFrom(Some) do not build equal values from {:?} (or is_empty() disagrees with == default())", String::from_utf8_lossy(b)))),
         }
     }
     if kind == SubtagKind::Language {
